@@ -126,4 +126,29 @@ PROPERTIES = {
         "jobs": [J("C18_params", quick={"cases": 600, "shards": 8, "max_size": 60}, thorough={"cases": 30000, "shards": 16, "max_size": 100},
                    env={"VERIF_TMP": "/verif/build/run"})],
     },
+    "C06": {
+        "rule": "rapidcheck: tissues of 2-7 cells (chain, cluster, cells inside an ECM shell, nucleus inside a cell, apart) of mixed classes, "
+                "icosphere level 1-2, um / unit / x12 scale, placed up to 3000 sizes from the origin; l_min, repulsion and adhesion "
+                "cut-offs log-uniform in [0.05, 3] edge lengths; node normals either in the iteration-0 state or computed; for contact "
+                "models 0, 1, 2. Non-trivial = a node-face pair within the cut-off (independent kernel), tissue spanning >= 27 voxels, "
+                "and a contact force or a pair whose node and face lie in different voxels; distinct = hash of the case.",
+        "min_nontrivial": 30,
+        "assumptions": ["single thread (couplings are order dependent by design)",
+                        "the all-pairs reference calls the real narrow-phase entry (resolve_contact / apply_contact_forces) of a second model "
+                        "instance in descending global face id, the order in which the voxel lists yield faces"],
+        "jobs": [J("C06_broadphase", v, quick={"cases": 20, "shards": 5, "max_size": 60}, thorough={"cases": 600, "shards": 5, "max_size": 100})
+                 for v in ("san", "san-cm0", "san-cm2")],
+    },
+    "C07": {
+        "rule": "rapidcheck, two subs per contact model. 'tissue': tissues as in C06 (level 1), zero initial forces; 'pair': one probe node "
+                "(apex of a thin tetrahedron) at signed depth in (-cutoff, cutoff) over the centroid region of one face of a tetrahedron "
+                "60 cut-offs wide, for all 25 ordered class pairs, both sides, both node-normal states, repulsion strength over 5 decades, "
+                "random rigid placement and scale. Non-trivial = a case in which a contact force or coupling was created; distinct = hash of the case.",
+        "min_nontrivial": 100,
+        "assumptions": ["a repulsion force is *required* only where the model's rules leave no doubt (normal pre-filter passes, depth below the "
+                        "model's repulsion range, k_rep > 0); the direction / reciprocity / weight clauses are asserted whenever a force is applied",
+                        "range clause uses max(cut-offs) because model 1 and 2 apply repulsion up to the larger of the two"],
+        "jobs": [J("C07_contact", v, quick={"cases": 150, "shards": 5, "max_size": 60}, thorough={"cases": 6000, "shards": 5, "max_size": 100})
+                 for v in ("san", "san-cm0", "san-cm2")],
+    },
 }
